@@ -31,13 +31,14 @@ def register(J):
                 defs = ["-DNLAYERS=%d" % nl, "-DNPOST=%d" % npost, "-DSUFFIX_ARG=" + sa, "-DSUFFIX_NORM=" + sn]
                 if quick and nl == 2 and npost == 0:
                     defs.append("-DNAME_NULL=1")
-                J.append(Job("history.l%d.p%d.%s" % (nl, npost, sname), ["C01", "C06", "C12", "C13", "C20", "C16"],
+                J.append(Job("history.l%d.p%d.%s" % (nl, npost, sname), ["C01", "C06", "C12", "C13", "C20", "C16", "C14"],
                              "harness/history.c", sources=["lib/readconfig.c", "lib/helpers.c"], stubs=["stubs/h1.c"],
-                             contracts=SHIM, unwind=12, post_unwindset=us, tier="T2", defines=defs,
+                             contracts=SHIM + ["contracts/pathmax_small.h"], unwind=12, post_unwindset=us, tier="T2", defines=defs,
                              tiers=Q if quick else T, timeout=900, mem_gb=6, nobody_ok=[".*"],
                              functions=["readConfigHistoryWithCallback", "combine_strings"], trusted=FS_TRUST,
                              bounds="%d layers, %s drop-in dir postfixes, suffix argument %s; per layer 0-2 drop-ins appended "
-                                    "by the (contract of the) directory traversal; every file state symbolic"
+                                    "by the (contract of the) directory traversal; every file state symbolic; PATH_MAX scaled to 6 "
+                                    "(every candidate path is longer than a PATH_MAX-sized buffer)"
                                     % (nl, npost or "default", sa),
                              model="M-real (short concrete path components)",
                              statement="C01: main file taken from the highest layer that has one (absent files skipped, an "
